@@ -188,3 +188,30 @@ PROPS["C03"] = {
             "are compared with the rules state machine, its FEN with the spec's rendering, and its repetition record with the multiset of keys of the earlier positions on the path",
     "assumptions": ["u16 wrap of the two counters is outside the model (Nat); a legal game cannot reach 65535"],
 }
+
+UCI_Q = {"name": "uci", "stream": "uci", "driver": "uci", "shards": 16, "args": ["--sessions", 1600]}
+UCI_T = {"name": "uci", "stream": "uci", "driver": "uci", "shards": 16, "args": ["--sessions", 40000]}
+UCI_RULE = ("generated UCI sessions: position commands carrying legal games (random play from 40 seeds, biased to castling / en passant / promotion) and every kind of single-move corruption "
+            "(illegal move, wrong / missing / upper-case promotion suffix, castling written as king-takes-rook, truncated string, a move of the other side, 'moves' keyword forgotten), "
+            "ucinewgame / isready / setoption variants, junk lines built from the UCI vocabulary with arguments dropped, duplicated, reordered or replaced by junk numbers (negative, > u8, > u64, > u128, "
+            "non-numeric, non-ASCII), tab-separated tokens, lines after quit; each line goes through the real parser (verdict compared with the model) and each session through the real uci_loop "
+            "(session position after every executed command compared with the model and with the rules spec's reading of the position command); distinct_nontrivial = distinct input lines")
+
+PROPS["C08"] = {
+    "module": "RCE.Props.C08",
+    "theorems": ["RCE.Props.C08.position_atomic", "RCE.Props.C08.position_fresh", "RCE.Props.C08.findMove_sound",
+                 "RCE.Props.C08.findMove_complete", "RCE.Props.C08.playMoves_spec", "RCE.Props.C08.legal_move_unique"],
+    "streams": {"quick": [UCI_Q], "thorough": [UCI_T]},
+    "eval_key": "input_lines", "distinct_key": "distinct_lines",
+    "rule": UCI_RULE,
+    "assumptions": ["FEN arguments are valid 6-field FENs", "a 4-field FEN followed by 'moves' is sliced wrongly by parse_position and is outside the property's 'fen F' form (recorded quirk)"],
+}
+
+PROPS["C15"] = {
+    "module": "RCE.Props.C15",
+    "theorems": ["RCE.Props.C15.parse_total", "RCE.Props.C15.loop_total", "RCE.Props.C15.isready_answered", "RCE.Props.C15.quit_exits"],
+    "streams": {"quick": [UCI_Q], "thorough": [UCI_T]},
+    "eval_key": "input_lines", "distinct_key": "distinct_lines",
+    "rule": UCI_RULE + "; for C15 additionally the real binary is fed junk sessions, end-of-input at every point and quit, and must answer isready, exit with status 0 promptly and print no panic",
+    "assumptions": ["FEN arguments are valid FEN (Board::from_fen panics otherwise: outside the property)", "setoption name/value are lower-cased with to_lowercase(): modelled for ASCII only"],
+}
